@@ -69,7 +69,13 @@ def finish(agg: dict, tier: str, seed: int) -> None:
 
 # ----------------------------------------------------------------------------
 def filler(n: int) -> str:
-    return f".ascii '{'a' * n}'\n" if n > 0 else ""
+    """n bytes of filler.  Every 5th length also carries characters that have no ASCII byte: they emit nothing and occupy nothing."""
+    if n <= 0:
+        return ""
+    text = "a" * n
+    if n % 5 == 0:
+        text = text[: n // 2] + "\u00e9\u2014" + text[n // 2:] + "\u00a5"
+    return f".ascii '{text}'\n"
 
 
 def build(rom: str, m: str, d: int, place: int, form: str, reloc: str):
